@@ -60,6 +60,14 @@ def cmp(ctx, cid, site, P, got, want, scale, what):
     return True
 
 
+def _polar(M, d):
+    """the reference matrix is kept an exact group member (nearest rotation by polar decomposition) so that it does not drift itself"""
+    M = M.copy()
+    U, _, Vt = np.linalg.svd(M[:d, :d])
+    M[:d, :d] = U @ Vt
+    return M
+
+
 def safe(ctx, cid, site, P, f, *a, **k):
     ok, v = call(f, *a, **k)
     if not ok:
@@ -99,7 +107,7 @@ def step3(ctx, cid, P, st, g, how):
         # integer power: each representation by its own operator (the twist by scaling its coordinates when the rotation stays inside
         # the principal range, else re-derived from the SE3), the dual quaternion re-embedded
         n_ = int(how[3:])
-        M = np.linalg.matrix_power(st.M if n_ >= 0 else ref.inv_h(st.M), abs(n_))
+        M = _polar(np.linalg.matrix_power(st.M if n_ >= 0 else ref.inv_h(st.M), abs(n_)), 3)
         for n in ('SO3', 'SE3', 'UQ'):
             x = st.o.get(n)
             o[n] = safe(ctx, cid, n + '.pow', P, lambda x=x: x ** n_) if x is not None else None
@@ -270,7 +278,7 @@ def step2(ctx, cid, P, st, g, how):
     o = {}
     if how.startswith('pow'):
         n_ = int(how[3:])
-        M = np.linalg.matrix_power(st.M if n_ >= 0 else ref.inv_h(st.M), abs(n_))
+        M = _polar(np.linalg.matrix_power(st.M if n_ >= 0 else ref.inv_h(st.M), abs(n_)), 2)
         for n in ('SO2', 'SE2'):
             x = st.o.get(n)
             o[n] = safe(ctx, cid, n + '.pow', P, lambda x=x: x ** n_) if x is not None else None
@@ -395,6 +403,20 @@ def bfs(ctx, dim, k, K):
                 ctx.case(cidh, trivial=(gn == 'I|t=0'))
                 sth = (State3 if dim == 3 else State2)(st.M, aged, st.sc)
                 check(ctx, cidh, dict(dim=dim, g=gn.split('|')[0], t=gn.split('t=')[1], depth=0, hist=tag), sth)
+    # drifted members: a state reached by 27 (81) compositions (nested cubes) is a member to ~1e-14 - outside the 100 eps band that the
+    # constructors apply to raw arrays, which the operations never apply to their own results: every conversion must still work on it
+    if k == 0:
+        for gn, M in [g for g in G if tsc(g[1]) <= 1.5 and not g[0].startswith('I')][:4 if tier == 'quick' else 12]:
+            for depth_ in (3, 4):
+                cid = 'C04/%dD/drift/%s/cubes=%d' % (dim, gn, depth_)
+                if not ctx.want(cid):
+                    continue
+                ctx.case(cid)
+                P = dict(dim=dim, g=gn.split('|')[0], t=gn.split('t=')[1], step='drift', depth=depth_)
+                st = embed(ctx, cid, P, M)
+                for _ in range(depth_):
+                    st = step(ctx, cid, P, st, None, 'pow3')
+                check(ctx, cid, P, st)
     ntr = 0
     # composition letters: a landmark-preserving subset (all generators are still roots); bounds the branching factor
     gsub = [g for g in gens if g[0] in {x[0] for x in alph.subset(G, 6 if tier == 'quick' else 10, 3 if tier == 'quick' else 5)}]
